@@ -335,3 +335,7 @@ CJSON_PUBLIC(cJSON *) cJSONUtils_GeneratePatches(cJSON * const from, cJSON * con
 size_t bad_DIG1_count(size_t index) { size_t length = 1; while (index > 10) { index /= 10; length++; } return length; }
 size_t good_count(size_t index) { size_t length = 1; while (index >= 10) { index /= 10; length++; } return length; }
 size_t good_count_nonzero(size_t index) { size_t length = 0; for (; index != 0; index /= 10) { length++; } return length; }
+
+/* OUT6 with counters: the write index overtakes the read index */
+static void bad_OUT6_indexed(char *s) { size_t r = 0; size_t w = 0; while (s[r] != '\0') { s[w] = s[r]; s[w + 1] = ' '; w += 2; r++; } s[w] = '\0'; }
+static void good_indexed(char *s) { size_t r = 0; size_t w = 0; while (s[r] != '\0') { if (s[r] != ' ') { s[w] = s[r]; w++; } r++; } s[w] = '\0'; }
